@@ -20,6 +20,7 @@ import WuffsVerif.Proof.RacTermination
 import WuffsVerif.Proof.RacAntiLoop
 import WuffsVerif.Proof.RacHCodec
 import WuffsVerif.Proof.RacCrc
+import WuffsVerif.Proof.RacRoundtrip
 
 namespace WuffsVerif.Props.C13
 open WuffsVerif.Rac
@@ -302,34 +303,63 @@ theorem dptrSegments_dmax (rs : List Nat) (tagBase : Nat) (cs : List WNode) (d0 
 /-- the file is everything that reached `Writer` -/
 def fileOf (w : Writer) : Array UInt8 := w.chunkWriter.io.wBytes.toArray
 
-/-- `rac_roundtrip`, the property C13 itself over the models — STATED, NOT PROVED (OPEN).
-For every codec meeting its contract (`D` decompresses a primary CRange that starts with the
-chunk's compressed bytes and may be followed by unrelated bytes), every configuration and fault
-position, every sequence of `Write` calls on a fresh Writer: if `Close` returns nil then the bytes
-that reached `Writer` pass the independent spec reader's validation and decode to the written
-bytes.  What is proved of it: `rac_roundtrip_partial` below.  What is missing: `index_roundtrip`,
-i.e. that `Spec.chunks` of the emitted file lists exactly the accepted chunks with CRanges that
-start at the chunks' bytes (byte-level inversion of `writeIndex`/`calcEncodedSize`/padding by
-`Spec.parseNode`/`Spec.walk`, and equality of the two independently written CRC-32s).  That part
-is covered by the tie only: on every run the Lean `Spec` reader and the Go walker validate and
-decode every file produced by the real `rac.Writer`, and the model's files are byte-identical. -/
+/-- `index_node_roundtrip`: for every branch node the writer can emit (`NodeOK`: valid codec, at most 255
+elements, at most two resources per child, sizes and offsets below 2^48 and inside the file), the independent
+spec reader `Spec.parseNode` accepts the bytes `encodeNode` (the body of `nodeWriter.writeIndex`) produces —
+magic, arity, CRC-32 checksum, reserved bytes, version, TTag zones, Codec Element, DPtr order, COff ≤ COffMax —
+and returns the node's own fields (`parsedBranch`; closed forms in `Proof/RacNodeParse.lean`). -/
+theorem index_node_roundtrip (nw : NodeWriter) (n : WNode) (ok : NodeOK nw n.children n.resources n.codec)
+    (off cb db : Nat) :
+    ∃ bytes, encodeNode nw n = .ok bytes ∧
+      Spec.parseNode bytes off cb db = .ok (parsedBranch nw n.children n.resources n.codec off cb db) :=
+  ⟨_, encodeNode_eq' nw n ok.valid ok.arity, parse_nodeBytes nw n.children n.resources n.codec ok off cb db⟩
+
+/-- `index_roundtrip`: for every ChunkWriter state reachable by `AddResource`/`AddChunk` (`DataInv`) with at
+least one chunk, both index locations, every page size and resource set: if `Close` returns nil then the
+independent spec reader (`Spec.chunks`: root search, per-node and parent/child validation incl. the anti-loop
+rule, depth-first walk) lists exactly the accepted chunks (`Matches`: DRanges tile `[0, DFileSize)` in order,
+codec, primary CRange starting at the chunk's bytes), `DFileSize` is the sum of the chunk sizes, and the data
+stream sits in the file at `dataCOffset` (`CloseOK`). -/
+theorem index_roundtrip (c : CW) (hi : DataInv c) (he : c.err = none) (hne : c.leafNodes.size ≠ 0)
+    (hcl : (c.close).2 = none) : CloseOK c :=
+  CW.close_roundtrip c hi he hne hcl
+
+/-- `rac_roundtrip`, the property C13 itself over the models.
+For every codec meeting its contract (`D` decompresses a primary CRange that starts with the chunk's compressed
+bytes and may be followed by unrelated bytes; `Compress` never names the "Zeroes" codec, for which the format
+stores no bytes), every configuration (chunk sizing mode and sizes, page size, index location, temp-file kind,
+resources) and fault position, every sequence of `Write` calls on a fresh Writer: if `Close` returns nil then
+the bytes that reached `Writer` pass the independent spec reader's validation and decode to exactly the
+written bytes. -/
 def rac_roundtrip_statement : Prop :=
   ∀ (cw : CodecW) (D : Bytes → Option Bytes), CodecContract cw D →
     (∀ a b d, D a = some d → D (a ++ b) = some d) →
+    (∀ a b rs out, cw.compress a b rs = .ok out → out.codec ≠ 0 ∧ out.codec ≠ 2 ^ 63) →
   ∀ (w0 : Writer), (w0.err = none ∧ w0.closed = false ∧ w0.inited = false ∧ w0.chunkWriter = { io := { failAt := w0.chunkWriter.io.failAt } } ∧
       w0.uncompressed = {}) →
   ∀ (ps : List Bytes), ((Writer.runWrites cw w0 ps).Close cw).2 = none →
     Spec.validate (fileOf ((Writer.runWrites cw w0 ps).Close cw).1) = true ∧
     Spec.decode (fileOf ((Writer.runWrites cw w0 ps).Close cw).1) (fun _ p _ _ => D p) = .ok ps.flatten
 
-/-- `rac_roundtrip_partial`: what is proved of `rac_roundtrip_statement`.  Under its hypotheses,
-if `Close` returns nil then
-* the accepted chunks, decompressed and zero-filled, are exactly the written bytes
-  (`chunks_cover_input`);
-* no underlying call failed at any point of the session (a failure makes `Close` non-nil);
-* and the index tree over those chunks is well-formed and satisfies the anti-loop rule
-  (`gather_wellformed`, `writer_satisfies_antiloop`, for the leaf list of any session). -/
-theorem rac_roundtrip_partial (cw : CodecW) (D : Bytes → Option Bytes) (hc : CodecContract cw D)
+/-- **`rac_roundtrip`** (proved; `Proof/RacRoundtrip.lean` and the files it imports). -/
+theorem rac_roundtrip : rac_roundtrip_statement := by
+  intro cw D hc hD hz w0 hfresh ps hok
+  exact rac_roundtrip_thm cw D hc hD hz w0 hfresh ps hok
+
+/-- non-vacuity of the extra codec hypothesis: the harness codec never names "Zeroes" when it runs under a
+non-zero short codec number -/
+example (p q : Bytes) (rs : List Bytes) (out : CompressOut)
+    (h : HCodec.compress { codec := 0x3E00000000000000, oob := false } p q rs = .ok out) :
+    out.codec ≠ 0 ∧ out.codec ≠ 2 ^ 63 := by
+  unfold HCodec.compress at h
+  simp only [Except.ok.injEq] at h
+  rw [← h]
+  constructor <;> simp
+
+/-- what was provable before the index half: kept as a corollary.  If `Close` returns nil then the accepted
+chunks, decompressed and zero-filled, are exactly the written bytes, and `Close` leaves the sticky
+`errAlreadyClosed`. -/
+theorem rac_close_covers_and_sticky (cw : CodecW) (D : Bytes → Option Bytes) (hc : CodecContract cw D)
     (w0 : Writer) (hfresh : w0.err = none ∧ w0.closed = false ∧ w0.chunkWriter.log = [] ∧ w0.uncompressed = {})
     (ps : List Bytes) (hok : ((Writer.runWrites cw w0 ps).Close cw).2 = none) :
     Covers D ((Writer.runWrites cw w0 ps).Close cw).1.chunkWriter.log ps.flatten ∧
